@@ -371,6 +371,13 @@ impl Store {
                         None => (None, 0),
                     };
 
+                    // The historical replay may already have delivered the whole limit
+                    if let Some(limit) = limit {
+                        if count >= limit {
+                            return;
+                        }
+                    }
+
                     let mut broadcast_rx = broadcast_rx;
                     #[cfg(xs_verif)]
                     crate::verif::apoint("live.start", verif_read_id).await;
